@@ -1,4 +1,5 @@
 from decimal import Decimal
+from typing import Tuple
 from typing import Type
 from typing import cast
 
@@ -96,7 +97,8 @@ class AddressType(StringType, prim='address'):
 
     def __lt__(self, other: 'AddressType') -> bool:  # type: ignore
         """
-        Addresses are ordered by kind first: implicit accounts < originated contracts < smart rollups
+        Addresses are ordered by kind first: implicit accounts < originated contracts < smart rollups,
+        then by the address itself, then by the entrypoint (a missing entrypoint stands for "default")
         """
         kinds = {
             'tz1': 0,
@@ -112,7 +114,11 @@ class AddressType(StringType, prim='address'):
         elif res > 0:
             return False
         else:
-            return self.value < other.value
+            return self._split() < other._split()
+
+    def _split(self) -> Tuple[str, str]:
+        address, _, entrypoint = self.value.partition('%')
+        return address, entrypoint or 'default'
 
     @classmethod
     def dummy(cls, context: AbstractContext) -> 'AddressType':
